@@ -326,8 +326,9 @@ End Verdict.
 (* what the driver runs: the property holds on the model's own observable, for every input *)
 Lemma validate_stream_holds inp : prop_validate inp (run_validate inp) = 0.
 Proof.
-  unfold prop_validate, run_validate.
-  destruct (dec_validate inp) as [[[g op] old] new].
+  unfold prop_validate, run_validate. destruct (untag TAG_VALIDATE inp) as [body|]; [|reflexivity].
+  unfold prop_validate_body, run_validate_body.
+  destruct (dec_validate body) as [[[g op] old] new].
   cbn [zb bz].
   destruct (validate g op old new =? 0) eqn:E.
   - cbn. apply validate_code_spec. apply (admitted_sound g). exact E.
